@@ -91,7 +91,7 @@ impl Monitor for C05 {
         if tier == Tier::Sanitizer {
             vec!["arith_accept", "accepted"]
         } else {
-            vec!["arith_accept", "arith_reject", "accepted", "rejected_replay", "rejected_far_future", "rejected_bad_mic", "rejected_oversize", "accepted_classc", "mac_answered", "epoch_crossed"]
+            vec!["arith_accept", "arith_reject", "accepted", "rejected_replay", "rejected_far_future", "rejected_bad_mic", "rejected_oversize", "accepted_classc", "mac_answered", "epoch_crossed", "exact_max_delivered"]
         }
     }
     fn exhaustive(&self, _tier: Tier) -> bool {
@@ -184,9 +184,11 @@ enum FK {
     BitFlip,
     ForeignKey,
     Oversize,
+    /// authentic and fresh, MACPayload exactly the maximum of the window's data rate
+    ExactMax,
 }
 
-const KINDS: [FK; 11] = [FK::Fresh1, FK::Fresh2, FK::FreshBig, FK::FreshMax, FK::TooFar, FK::Replay, FK::Stale, FK::OtherEpoch, FK::BitFlip, FK::ForeignKey, FK::Oversize];
+const KINDS: [FK; 12] = [FK::Fresh1, FK::Fresh2, FK::FreshBig, FK::FreshMax, FK::TooFar, FK::Replay, FK::Stale, FK::OtherEpoch, FK::BitFlip, FK::ForeignKey, FK::Oversize, FK::ExactMax];
 
 struct Built {
     bytes: Vec<u8>,
@@ -203,7 +205,7 @@ fn build_frame(net: &Net, last: Option<u32>, kind: FK, rng: &mut Prng) -> Option
     let l = last.map(|x| x as u64);
     let base = l.map(|x| x + 1).unwrap_or(0);
     let fcnt: u64 = match kind {
-        FK::Fresh1 | FK::BitFlip | FK::ForeignKey | FK::Oversize | FK::OtherEpoch => match l {
+        FK::Fresh1 | FK::BitFlip | FK::ForeignKey | FK::Oversize | FK::OtherEpoch | FK::ExactMax => match l {
             None => rng.below(0x1_0000),
             Some(x) => x + 1,
         },
@@ -232,11 +234,15 @@ fn build_frame(net: &Net, last: Option<u32>, kind: FK, rng: &mut Prng) -> Option
         // same wire value, other high half
         fcnt = if fcnt >= 0x1_0000 && rng.bool() { fcnt - 0x1_0000 } else { fcnt.checked_add(0x1_0000)? };
     }
-    let devstatus = rng.chance(1, 3);
+    let devstatus = rng.chance(1, 3) && !matches!(kind, FK::Oversize | FK::ExactMax);
     let confirmed = rng.chance(1, 4);
     let in_fopts = rng.bool();
     let (port, payload, fopts): (Option<u8>, Vec<u8>, Vec<u8>) = if kind == FK::Oversize {
         (Some(rng.range(1, 223) as u8), rng.bytes(190), vec![])
+    } else if kind == FK::ExactMax {
+        // 7 (FHDR) + 1 (FPort) + 51 = 59 bytes of MACPayload: the limit of SF12/SF11/SF10 at 125 kHz in the
+        // plans this kind is used for
+        (Some(rng.range(1, 223) as u8), rng.bytes(51), vec![])
     } else if devstatus && !in_fopts {
         (Some(0), dev_status_req(), vec![])
     } else {
@@ -316,8 +322,9 @@ fn session_case(idx: u64, rng: &mut Prng, col: &mut Collector) {
         let ev_start = dev.log.borrow().ev.len();
         // choose frames for this transaction
         let kind = *rng.pick(&KINDS);
+        let kind = if kind == FK::ExactMax && !matches!(reg, regions::Reg::EU868 | regions::Reg::EU433 | regions::Reg::IN865) { FK::Fresh1 } else { kind };
         let Some(b1) = build_frame(&net, last, kind, rng) else { continue };
-        let classc = front == Front::AsyncC && rng.chance(1, 4) && b1.kind != FK::Oversize;
+        let classc = front == Front::AsyncC && rng.chance(1, 4) && b1.kind != FK::Oversize && b1.kind != FK::ExactMax;
         let in_rx2 = rng.bool();
         // the window's data rate decides whether an oversized frame is *clearly* oversized:
         // only generate it for RX2 of regions whose default RX2 rate is SF12/SF10 (limit <= 123+)
@@ -337,8 +344,12 @@ fn session_case(idx: u64, rng: &mut Prng, col: &mut Collector) {
             } else {
                 script.pre_rx1.push(b1.bytes.clone());
             }
-        } else if b1.kind == FK::Oversize {
+        } else if b1.kind == FK::Oversize || b1.kind == FK::ExactMax {
+            // RX2 runs at the plan's default rate here (its payload limit is known)
             script.rx2.push(b1.bytes.clone());
+            if b1.kind == FK::ExactMax {
+                col.event("exact_max_delivered");
+            }
         } else if in_rx2 {
             script.rx2.push(b1.bytes.clone());
         } else {
@@ -441,7 +452,7 @@ fn session_case(idx: u64, rng: &mut Prng, col: &mut Collector) {
                 }
             }
         }
-        let winkind = if classc { "classC" } else if in_rx2 { "rx2" } else { "rx1" };
+        let winkind = if classc { "classC" } else if in_rx2 || b1.kind == FK::ExactMax || b1.kind == FK::Oversize { "rx2" } else { "rx1" };
         let verdict = if exp_resp_n.is_some() || (classc && last != before) { "accept" } else { "reject" };
         col.eval(&format!("sess|{}|{:?}|{}|{}|{}", last_class(before), b1.kind, verdict, winkind, front.name()));
         history.push(format!("{:?}@{}:fcnt={}:{}", b1.kind, winkind, b1.fcnt, verdict));
